@@ -31,6 +31,22 @@ Theorem C14_recover_continues : forall st f f',
 Proof. exact unset_then_recover. Qed.
 Print Assumptions C14_recover_continues.
 
+(* counter recovery after k-fold unsetID / recoverID of one (nested) channel: the counters, the channel stack and the channel
+   are unchanged, and the recovery table holds the CURRENT counters (the entry is refreshed by every unsetID, not only the
+   first); with arbitrary traffic between the visits the next recoverID continues where the party left *)
+Theorem C14_recover_k_fold : forall k st f i s d r, stack st = (i, s, d) :: r ->
+  let st' := leave_enter_k k st f in
+  cur st' = cur st /\ sq st' = sq st /\ dls st' = dls st /\ stack st' = stack st /\
+  (k <> O -> recov st' (cur st) = Some (sq st, dls st)).
+Proof. exact recover_k_fold. Qed.
+Print Assumptions C14_recover_k_fold.
+
+Theorem C14_recover_after_traffic : forall st f1 f2 f3 f4 (u : pst -> pst),
+  let st1 := leave_enter st f1 f2 in let st2 := u st1 in let st3 := leave_enter st2 f3 f4 in
+  cur st3 = cur st2 /\ sq st3 = sq st2 /\ dls st3 = dls st2.
+Proof. exact recover_after_traffic. Qed.
+Print Assumptions C14_recover_after_traffic.
+
 Theorem C14_nested_channel_returns : forall st id f f',
   let st' := unset_id (set_id st id f) f' in
   cur st' = cur st /\ sq st' = sq st /\ dls st' = dls st /\ stack st' = stack st /\ fifo st' = f'.
